@@ -16,6 +16,15 @@ CLAIMED = {
         "Trusted: Lean kernel + propext/Classical.choice/Quot.sound; the correspondence harness; DuckDB/SQLite/Spark SQL semantics; ids map to ranks order-isomorphically.",
         "DESIGN.md §6 C05",
     ),
+    "C11": (
+        "Lean 4 theorems about a model of cluster_pairwise_predictions_at_multiple_thresholds (sorted thresholds, stable-cluster test, nodes/edges in play, "
+        "marginal clustering, UNION ALL, summary statistics): for every graph and every threshold list each reported clustering has exactly the rows of "
+        "clustering independently at that threshold (multi_eq_single, via the C05 theorems), stable clusters are clusters at the new threshold, every "
+        "requested threshold is covered, statistics are those of that partition. Tie: real code vs compiled model on graph families x threshold lists "
+        "(all columns, per-threshold iteration traces, statistics); union-find oracle on the real output.",
+        "Trusted: Lean kernel + standard axioms; `>=` on non-NaN doubles is transitive and total (hypotheses of the theorems); correspondence harness; SQL engines.",
+        "DESIGN.md §6 C11",
+    ),
 }
 PENDING_REASON = "check not built yet (model/theorems/correspondence under construction per DESIGN.md §10b); not claimed until all three exist"
 
